@@ -5,6 +5,7 @@ package props
 
 import (
 	"fmt"
+	psatoken "github.com/veraison/psatoken"
 	"strings"
 
 	"verif/engine/choice"
@@ -51,6 +52,11 @@ func coarseAlphabet(p int) map[string][]classOpt {
 			{"p2-name", func(a *refmodel.Claims) { a.Profile = sp(refmodel.P2Name) }},
 			{"canonical-lowercase", func(a *refmodel.Claims) { a.Profile = sp(strings.ToLower(canon)) }},
 			{"canonical-trailing-space", func(a *refmodel.Claims) { a.Profile = sp(canon + " ") }},
+			// values that read like the library's own benign error phrases (they get quoted in error messages)
+			{"phrase-missing-optional", func(a *refmodel.Claims) { a.Profile = sp(psatoken.ErrOptionalClaimMissing.Error()) }},
+			{"phrase-not-in-profile", func(a *refmodel.Claims) {
+				a.Profile = sp(psatoken.ErrClaimNotInProfile.Error() + ": " + psatoken.ErrNotInProfile.Error())
+			}},
 		}
 	} else {
 		m["profile"] = []classOpt{
@@ -87,7 +93,8 @@ func coarseAlphabet(p int) map[string][]classOpt {
 	cr := func(label, v string) classOpt {
 		return classOpt{label, func(a *refmodel.Claims) { a.CertRef = sp(v) }}
 	}
-	m["cert"] = []classOpt{{"absent", func(a *refmodel.Claims) { a.CertRef = nil }}, cr("ean13+5", ean13p5), cr("ean13", ean13), cr("ean13+5+nl", ean13p5+"\n"), cr("x", "x"), cr("empty", "")}
+	m["cert"] = []classOpt{{"absent", func(a *refmodel.Claims) { a.CertRef = nil }}, cr("ean13+5", ean13p5), cr("ean13", ean13), cr("ean13+5+nl", ean13p5+"\n"), cr("x", "x"), cr("empty", ""),
+		cr("phrase-missing-optional", psatoken.ErrMissingOptional.Error()), cr("phrase-not-in-profile", psatoken.ErrFieldNotInProfile.Error())}
 	comps := func(label string, mk func() []*refmodel.Comp) classOpt {
 		return classOpt{label, func(a *refmodel.Claims) { a.CompsNil = false; a.Comps = mk() }}
 	}
@@ -244,7 +251,8 @@ func certNeighbourhood() []string {
 			out = append(out, s)
 		}
 	}
-	ins := []string{"0", "9", "-", "a", "\n", "٣", " "}
+	// what a number parser swallows but a digit is not: signs, a decimal point, an exponent, an underscore, hex letters
+	ins := []string{"0", "9", "-", "a", "\n", "٣", " ", "+", ".", "e", "_", "x", "\x00"}
 	for _, base := range []string{ean13, ean13p5} {
 		add(base)
 		for i := 0; i < len(base); i++ {
@@ -277,34 +285,56 @@ type fineAxis struct {
 	set   func(a *refmodel.Claims, i int) string // returns label
 }
 
+// fineLens: every byte-string length 0..80, then each acceptable length (8, 32, 33, 48, 64) plus 2^8, 2^13 and
+// 2^16: lengths that look acceptable once they (or their size in bits) have been squeezed into a narrow integer.
+var fineLens = func() []int {
+	var out []int
+	for i := 0; i <= 80; i++ {
+		out = append(out, i)
+	}
+	for _, w := range []int{1 << 8, 1 << 13, 1 << 16} {
+		for _, n := range []int{8, 32, 33, 48, 64} {
+			out = append(out, w+n)
+		}
+	}
+	return out
+}()
+
 func fineAxes(p int) []fineAxis {
+	nl := len(fineLens)
 	ax := []fineAxis{
-		{"impl", 81, func(a *refmodel.Claims, i int) string { a.ImplID = bp(pat(i, 0x11)); return fmt.Sprint(i) }},
-		{"boot", 81, func(a *refmodel.Claims, i int) string { a.BootSeed = bp(pat(i, 0x22)); return fmt.Sprint(i) }},
-		{"nonce", 81, func(a *refmodel.Claims, i int) string {
-			a.NonceAbsent = false
-			a.Nonces = [][]byte{pat(i, 0x33)}
-			return fmt.Sprint(i)
+		{"impl", nl, func(a *refmodel.Claims, i int) string {
+			a.ImplID = bp(pat(fineLens[i], 0x11))
+			return fmt.Sprint(fineLens[i])
 		}},
-		{"inst", 81 * 4, func(a *refmodel.Claims, i int) string {
+		{"boot", nl, func(a *refmodel.Claims, i int) string {
+			a.BootSeed = bp(pat(fineLens[i], 0x22))
+			return fmt.Sprint(fineLens[i])
+		}},
+		{"nonce", nl, func(a *refmodel.Claims, i int) string {
+			a.NonceAbsent = false
+			a.Nonces = [][]byte{pat(fineLens[i], 0x33)}
+			return fmt.Sprint(fineLens[i])
+		}},
+		{"inst", nl * 4, func(a *refmodel.Claims, i int) string {
 			first := []byte{1, 0, 2, 0xff}[i%4]
-			a.InstID = bp(instID(i/4, first))
-			return fmt.Sprintf("%d/%02x", i/4, first)
+			a.InstID = bp(instID(fineLens[i/4], first))
+			return fmt.Sprintf("%d/%02x", fineLens[i/4], first)
 		}},
 		{"cert", len(certNbh), func(a *refmodel.Claims, i int) string {
 			a.CertRef = sp(certNbh[i])
 			return fmt.Sprintf("%q", certNbh[i])
 		}},
-		{"comps", 81 * 2, func(a *refmodel.Claims, i int) string { // one component, one hash field swept
+		{"comps", nl * 2, func(a *refmodel.Claims, i int) string { // one component, one hash field swept
 			c := okComp(1, 32)
 			if i%2 == 0 {
-				c.MVal = bp(pat(i/2, 0x44))
+				c.MVal = bp(pat(fineLens[i/2], 0x44))
 			} else {
-				c.Signer = bp(pat(i/2, 0x55))
+				c.Signer = bp(pat(fineLens[i/2], 0x55))
 			}
 			a.CompsNil = false
 			a.Comps = []*refmodel.Comp{okComp(7, 48), c}
-			return fmt.Sprintf("field%d/%d", i%2, i/2)
+			return fmt.Sprintf("field%d/%d", i%2, fineLens[i/2])
 		}},
 		{"lifecycle", 14 * 3, func(a *refmodel.Claims, i int) string { // every range end and both neighbours
 			ends := []uint16{0x0000, 0x00ff, 0x1000, 0x10ff, 0x2000, 0x20ff, 0x3000, 0x30ff, 0x4000, 0x40ff, 0x5000, 0x50ff, 0x6000, 0x60ff}
